@@ -321,6 +321,10 @@ func c11Chunks(p *Prog, r *Report, rule string) {
 		}
 		good := false
 		var at ast.Node = fi.Decl
+		isReadPrefix := func(e ast.Expr) bool {
+			se, ok := ast.Unparen(e).(*ast.SliceExpr)
+			return ok && objOf(info, se.X) == bufObj && se.Low == nil && se.High != nil && objOf(info, se.High) == nObj && nObj != nil
+		}
 		for _, gn := range fl.Nodes {
 			if gn.Ast == nil {
 				continue
@@ -329,8 +333,28 @@ func c11Chunks(p *Prog, r *Report, rule string) {
 				if kv, ok := x.(*ast.KeyValueExpr); ok {
 					if k, ok := kv.Key.(*ast.Ident); ok && k.Name == "Chunk" {
 						at = kv
-						if se, ok := ast.Unparen(kv.Value).(*ast.SliceExpr); ok && objOf(info, se.X) == bufObj && se.Low == nil && se.High != nil && objOf(info, se.High) == nObj && nObj != nil {
+						if isReadPrefix(kv.Value) {
 							good = true
+						}
+					}
+				}
+				// the message built by a helper of the package: chunkResponse(buf[:n]) with `Chunk: p` inside
+				if c, ok := x.(*ast.CallExpr); ok {
+					if h := p.staticCallee(fi.Pkg, c); h != nil && h.Pkg == fi.Pkg {
+						args := argExprs(c, h)
+						for i, po := range paramObjs(h) {
+							if po == nil || i < 0 || args[i] == nil || !isReadPrefix(args[i]) {
+								continue
+							}
+							ast.Inspect(h.Decl.Body, func(y ast.Node) bool {
+								if kv, ok := y.(*ast.KeyValueExpr); ok {
+									if k, ok := kv.Key.(*ast.Ident); ok && k.Name == "Chunk" && objOf(info, kv.Value) == po {
+										at = c
+										good = true
+									}
+								}
+								return true
+							})
 						}
 					}
 				}
